@@ -74,6 +74,13 @@ def directed(lf):
                   ['mulf', [1], (0.999).hex()], ['trunc', [0], f], ['trunc', [1], f], ['trunc', [1], 1], ['muli', [1], 1], ['neg', [0], None]])
     progs.append([['cfloat', [], (1 + u).hex()], ['pow', [0], 2], ['pow', [0], 3], ['pow', [0], 5], ['pow', [0], 6], ['cfloat', [], (-1.25).hex()],
                   ['pow', [5], 2], ['pow', [5], 3], ['pow', [5], 4]])
+    # comparisons at the boundaries of the range: the most negative value against 0, operands exactly half a range apart
+    # (their difference is +-2^(l-f-1)), and neighbours of those
+    q = hi / 2
+    progs.append([['cfloat', [], (-hi).hex()], ['cint', [], 0], ['eq', [0, 1], None], ['ne', [0, 1], None], ['lt', [0, 1], None],
+                  ['ge', [0, 1], None], ['sgn', [0], None], ['cfloat', [], q.hex()], ['cfloat', [], (-q).hex()], ['eq', [7, 8], None],
+                  ['ne', [7, 8], None], ['eq', [8, 7], None], ['cfloat', [], (q - u).hex()], ['eq', [12, 8], None],
+                  ['ne', [12, 8], None], ['cfloat', [], (hi - u).hex()], ['eq', [15, 0], None], ['sgn', [15], None]])
     if l <= 2 * f + 1:
         progs.append([['cint', [], 1], ['cfloat', [], (0.75).hex()], ['div', [0, 1], None], ['cfloat', [], (-3.0).hex()], ['div', [0, 3], None],
                       ['divf', [1], (0.5).hex()], ['rdivf', [1], (1.0).hex()], ['cfloat', [], (1.0).hex()], ['div', [7, 7], None]])
